@@ -170,9 +170,13 @@ class _RecMixin:
         return self._rname
 
     def order(self):
+        if getattr(self, '_loading_seams', False):      # plugins that go through the real loader (mc/plugs.py)
+            self.j.seam(self._rname, 'order')
         return self._order
 
     def is_active(self):
+        if getattr(self, '_loading_seams', False):
+            self.j.seam(self._rname, 'is_active')
         return self._active
 
     def shutdown(self):
